@@ -360,6 +360,43 @@ var findings = []finding{
 	}},
 }
 
+var bigExponentRe = regexp.MustCompile(`d-?[0-9.]*[eE]\+?[0-9]{6,}`)
+
+// holdsBigInt: the destination type is or contains (up to three levels) a *big.Int
+func holdsBigInt(t reflect.Type, depth int) bool {
+	if t == uni.TBigIntP || t == uni.TBigIntP.Elem() {
+		return true
+	}
+	if depth == 0 {
+		return false
+	}
+	switch t.Kind() {
+	case reflect.Ptr, reflect.Slice, reflect.Array, reflect.Map:
+		return holdsBigInt(t.Elem(), depth-1)
+	case reflect.Struct:
+		for i := 0; i < t.NumField(); i++ {
+			if holdsBigInt(t.Field(i).Type, depth-1) {
+				return true
+			}
+		}
+	}
+	return false
+}
+
+func init() {
+	findings = append(findings, finding{"double-exponent-into-bigint", func(entry string, input []byte, variant int, problem string) bool {
+		// a double token with an exponent of six or more digits, AND a destination holding a *big.Int, AND the
+		// failure is the size of that integer (over-allocation or the time it takes)
+		return (entry == "unmarshal" || entry == "reader") && bigExponentRe.Match(input) && holdsBigInt(destTypes[variant%len(destTypes)], 3) &&
+			(strings.HasPrefix(problem, "allocated ") || strings.HasPrefix(problem, "took "))
+	}})
+	for i, t := range destTypes {
+		if t == uni.TBigIntP {
+			reproducers["double-exponent-into-bigint"] = repro{"unmarshal", i, `d1e100000000;`}
+		}
+	}
+}
+
 func classify(entry string, input []byte, variant int, problem string) string {
 	for _, k := range findings {
 		if ev.S.Known(k.key) && k.match(entry, input, variant, problem) {
